@@ -261,7 +261,7 @@ Proof.
   unfold progressing_tr, tp. destruct (rp_prog old) as [[[reason st] el]|]; [|discriminate].
   destruct (negb (wl_exists w) || negb (wl_consistent w)); [intros H Hn; injection H as <-; exfalso; apply Hn; reflexivity|].
   destruct reason.
-  - destruct (ts_refs t && negb (n_stable_exists n)); [intros H Hn; injection H as <-; exfalso; apply Hn; reflexivity|].
+  - destruct (ts_refs t && (negb (n_stable_exists n) || ts_gateway_fails t)); [intros H Hn; injection H as <-; exfalso; apply Hn; reflexivity|].
     intros H Hn. rewrite (of_prog_no_route _ _ _ _ _ H) in Hn. exfalso; apply Hn; reflexivity.
   - intros H Hn. split; [eauto|]. eapply in_rolling_route_write; eauto.
   - pose proof (do_finalising_tr_no_route t s w br FrSuccess true n g) as Hf.
@@ -465,7 +465,7 @@ Definition f30_wl : wl := {| wl_exists := false; wl_consistent := true; wl_stabl
   wl_in_progress := false; wl_in_rollback := false; wl_rid_label := ""; wl_typed := false |}.
 Definition f30_spec : tr_spec := {| ts_sp := {| rs_steps := [{| sp_replicas := IPct 50; sp_pause := None |}]; rs_paused := false; rs_disabled := true; rs_deleting := false;
   rs_finalizer := true; rs_generation := 1; rs_hash := "h"; rs_rollback_in_batch := false; rs_ft := None |};
-  ts_strategies := [weight_only 20]; ts_refs := true; ts_zero_grace := false |}.
+  ts_strategies := [weight_only 20]; ts_refs := true; ts_zero_grace := false; ts_gateway_fails := false |}.
 Definition f30_net : net := {| n_stable_exists := true; n_stable_sel := Some "v1"; n_canary_svc := None; n_route := RNone |}.
 Example task_passed_without_workload_refuted :
   let '(_, o) := finalise_tr f30_spec f30_sub f30_wl None FrDisabled false f30_net [] in
